@@ -132,7 +132,9 @@ func gr4jrefEngine(args []string) error {
 			if math.Ceil(x4) != float64(n1) || math.Ceil(2*x4) != float64(n2) || x4 < 0.5 {
 				continue
 			}
-			x1, x2, x3 := uni(r, 100, 1200), uni(r, -5, 3), uni(r, 20, 300)
+			// the documented ranges: X1 [1,1500], X2 [-10,5], X3 [1,500]; capacities log-uniform so that small
+			// stores (where the tanh cap and the routing floor bite) are as likely as large ones
+			x1, x2, x3 := math.Exp(uni(r, 0, math.Log(1500))), uni(r, -10, 5), math.Exp(uni(r, 0, math.Log(500)))
 			if k%5 == 0 {
 				x2 = 0
 			}
